@@ -6,6 +6,7 @@ package main
 
 import (
 	"fmt"
+	"math/big"
 	"sort"
 	"strings"
 
@@ -91,7 +92,8 @@ func (x *Explorer) constrain(st *State, d *DecV, nonneg, pos bool, fixed string)
 	}
 	if len(r.L.T) == 1 && r.L.C.Sign() == 0 {
 		for a, c := range r.L.T {
-			if c.Cmp(linConst(1).C) == 0 {
+			if c.Cmp(big.NewRat(1, 1)) == 0 {
+				st.events = append(st.events, Event{Kind: "call", Method: "Parse", Args: []Val{&Sym{N: a}}, Loop: x.curTag, Seq: len(st.events)})
 				at := st.attr(a)
 				at.NonNeg = at.NonNeg || r.NonNeg
 				at.Pos = at.Pos || r.Pos
@@ -349,6 +351,14 @@ func (x *Explorer) intrinsic(fr *Frame, st *State, ins *ssa.Call, callee *ssa.Fu
 			return &Sym{N: name, T: ins.Type()}, true
 		case "NewCoin":
 			amt := asInt(st, args[1])
+			// sdk.NewCoin panics on a negative amount: on the continuing path the amount is ≥ 0
+			if len(amt.L.T) == 1 && amt.L.C.Sign() == 0 {
+				for a, cf := range amt.L.T {
+					if cf.Cmp(big.NewRat(1, 1)) == 0 {
+						st.attr(a).NonNeg = true
+					}
+				}
+			}
 			st.events = append(st.events, Event{Kind: "call", Method: "NewCoin", Args: []Val{args[0], amt}, Loop: x.loopTag(fr, ins.Block()), Pos: ins, Fn: fr.fn, Facts: len(st.facts), Seq: len(st.events)})
 			return &CoinV{Denom: args[0], Amt: amt}, true
 		case "NewInt64Coin":
